@@ -1,4 +1,94 @@
-import Cpl.Model.Evolve1D
+import Cpl.Spec.Ring
+import Cpl.Lemmas.Evolve1D
+
+/-!
+# C01 — 1D evolution is the synchronous update of a ring
+
+For all ring sizes `N ≥ 1`, radii `1 ≤ r ≤ N`, states over any type, step counts `T ≥ 1` and all
+rule callables (pure, index- or time-dependent, or stateful: the rule state `σ` is threaded through the
+calls in the order the code makes them, so equality with `Spec.run` *is* the call-order contract).
+-/
+
 namespace Cpl.C01
-theorem placeholder : True := trivial
+open Cpl Cpl.Spec
+
+variable {σ α : Type}
+
+/-- **The strided index table is the ring window**: row `c`, column `j` is `(c - r + j) mod N`. -/
+theorem indexStrides_spec (N r c j : Nat) (h1 : 1 ≤ r) (h2 : r ≤ N) (hc : c < N) (hj : j < 2 * r + 1) :
+    (indexStrides N r)[c]?.bind (·[j]?) = some ((c + j + N - r) % N) := by
+  sorry
+
+theorem indexStrides_length (N r : Nat) (h1 : 1 ≤ r) (h2 : r ≤ N) :
+    (indexStrides N r).length = N := by
+  sorry
+
+/-- **`cells[strides]` are the ring windows** of cells `0 .. N-1`, in order. -/
+theorem neighbourhoods_eq_windows [Inhabited α] (cells : List α) (r : Nat) (h1 : 1 ≤ r)
+    (h2 : r ≤ cells.length) :
+    neighbourhoods cells r = (List.range cells.length).map (window cells r) := by
+  sorry
+
+theorem window_length [Inhabited α] (cells : List α) (r c : Nat) : (window cells r c).length = 2 * r + 1 := by
+  sorry
+
+/-- The cell's own state sits in the middle of its window. -/
+theorem window_centre [Inhabited α] (cells : List α) (r c : Nat) (h2 : r ≤ cells.length) (hc : c < cells.length) :
+    (window cells r c)[r]? = some cells[c]! := by
+  sorry
+
+/-- **One unmemoized step is the synchronous ring update**, for every stateful rule: the rule is
+    consulted once per cell, cells ascending, with `(window, c, t)`, its state threaded in that order. -/
+theorem step1_plain_eq_spec [DecidableEq α] [Inhabited α] (rule : Rule1 σ α) (r : Nat) (cells : List α)
+    (t : Nat) (cs : Caches α) (s : σ) (h1 : 1 ≤ r) (h2 : r ≤ cells.length) :
+    step1 .plain rule r cells t cs s = ((step rule cells r t s).1, cs, (step rule cells r t s).2) := by
+  sorry
+
+theorem step_length [Inhabited α] (rule : Rule1 σ α) (cells : List α) (r t : Nat) (s : σ) :
+    (step rule cells r t s).1.length = cells.length := by
+  sorry
+
+/-- **`evolve` with memoization off equals the specification run**: the given history followed by
+    `T-1` synchronous ring updates with step numbers `1, 2, …`, for every stateful rule. -/
+theorem evolveFixed_plain_eq_spec [DecidableEq α] [Inhabited α] (hist : List (List α)) (init : List α)
+    (hlast : hist.getLast? = some init) (T : Nat) (hT : 1 ≤ T) (rule : Rule1 σ α) (r : Nat)
+    (h1 : 1 ≤ r) (h2 : r ≤ init.length) (s : σ) :
+    evolveFixed hist T rule r .plain s
+      = .ok (hist ++ (run rule r (T - 1) 1 init s).1, (run rule r (T - 1) 1 init s).2) := by
+  sorry
+
+/-- Every new row has `N` cells and there are exactly `T-1` of them. -/
+theorem run_shape [Inhabited α] (rule : Rule1 σ α) (r k t : Nat) (cells : List α) (s : σ) :
+    (run rule r k t cells s).1.length = k ∧ ∀ row ∈ (run rule r k t cells s).1, row.length = cells.length := by
+  sorry
+
+/-- **The call trace**: instrumenting any rule with a recorder, the recorded calls of a run are
+    exactly one per cell per step — cells in ascending order, steps in ascending order starting at
+    `t`, each with the ring window of the previous row — and the rows are those of the
+    uninstrumented run. -/
+theorem run_logged [Inhabited α] (rule : Rule1 σ α) (r k t : Nat) (cells : List α) (s : σ)
+    (log : List (List α × Nat × Nat)) :
+    run (logged rule) r k t cells (s, log)
+      = ((run rule r k t cells s).1,
+         ((run rule r k t cells s).2, log ++ callsOfRows r t cells (run rule r k t cells s).1)) := by
+  sorry
+
+/-- Number of rule invocations: exactly `N · k` for `k` steps. -/
+theorem callsOfRows_length [Inhabited α] (r t : Nat) (cells : List α) (rows : List (List α))
+    (h : ∀ row ∈ rows, row.length = cells.length) :
+    (callsOfRows r t cells rows).length = cells.length * rows.length := by
+  sorry
+
+/-! ## Guard witnesses: outside `1 ≤ r ≤ N` the construction is not the ring window -/
+
+/-- `r = 0`: `arr[-0:]` is the whole array, so there are `2N` one-cell windows. -/
+example : indexStrides 3 0 = [[0], [1], [2], [0], [1], [2]] := by decide
+/-- `r > N`: too few windows. -/
+example : (indexStrides 2 3).length = 0 := by decide
+
+/-! ## Non-vacuity: hypotheses satisfiable, window wraps twice when `N = r` -/
+example : indexStrides 3 3 = [[0, 1, 2, 0, 1, 2, 0], [1, 2, 0, 1, 2, 0, 1], [2, 0, 1, 2, 0, 1, 2]] := by decide
+example : window [10, 20, 30] 3 1 = [20, 30, 10, 20, 30, 10, 20] := by decide
+example : window [1, 2, 3, 4, 5] 2 0 = [4, 5, 1, 2, 3] := by decide
+
 end Cpl.C01
